@@ -788,6 +788,46 @@ def preinstantiate(hyps, goal_i, rounds=2, cap=6, terms=None, extra_terms=None):
     return extra
 
 
+def real_fn_instances(fs):
+    """ground instances of the defining axioms of the uninterpreted real functions (A4):
+    sqrt(t) >= 0 and sqrt(t)**2 == t for t >= 0; x**(1/2) likewise; rpow(x, n) unfolding for the
+    integer terms n, n-1 occurring together"""
+    from .ops import rsqrt, rpowr, rpow
+    out, seen, stack = [], set(), list(fs)
+    pows = {}
+    while stack:
+        x = stack.pop()
+        i = x.get_id()
+        if i in seen or (z3.is_quantifier(x) and not x.is_lambda()):
+            continue
+        seen.add(i)
+        if z3.is_quantifier(x):
+            continue
+        if z3.is_app(x):
+            nm = x.decl().name()
+            if nm == "rsqrt" and x.num_args() == 1:
+                t = x.arg(0)
+                out.append(z3.Implies(t >= 0, z3.And(x >= 0, x * x == t)))
+            elif nm == "rpowr" and x.num_args() == 2:
+                b, e = x.arg(0), x.arg(1)
+                out.append(z3.Implies(z3.And(e * 2 == 1, b >= 0), z3.And(x >= 0, x * x == b)))
+                out.append(z3.Implies(e == 0, x == 1))
+                out.append(z3.Implies(b > 0, x > 0))
+            elif nm == "rpow" and x.num_args() == 2:
+                pows[i] = x
+            stack.extend(x.children())
+    for p in pows.values():
+        b, n = p.arg(0), p.arg(1)
+        out.append(z3.Implies(n == 0, p == 1))
+        out.append(z3.Implies(n == 1, p == b))
+        out.append(z3.Implies(n == 2, p == b * b))
+        out.append(z3.Implies(n == -1, p * b == 1))
+        for q in pows.values():
+            if q is not p and z3.eq(q.arg(0), b):
+                out.append(z3.Implies(z3.And(n == q.arg(1) + 1, z3.Or(b != 0, q.arg(1) >= 0)), p == q * b))
+    return out[:300]
+
+
 def divmod_instances(fs):
     """ground instances of the floor-division axioms (pyvc.ops.divmod_axioms) for the
     pydiv/pymod terms and the integer products occurring in fs"""
@@ -828,6 +868,7 @@ def _check_one(hyps, goal, timeout, pre=True):
     s.set(timeout=timeout)
     g = intro(goal)
     s.add(*hyps)
+    s.add(*real_fn_instances([h for h in hyps if not z3.is_quantifier(h)] + [g]))
     if pre:
         s.add(*preinstantiate(hyps, g))
     s.add(z3.Not(g))
@@ -863,7 +904,7 @@ def _portfolio(self, ob):
             ext, ks = ext_witnesses([g] + [h for h in _flatten(full) if not z3.is_quantifier(h)]) if strat == "qfix" else ([], {})
             inst = preinstantiate(full, g, extra_terms=ks)
             core = [f for f in _flatten(list(full) + inst) if not _has_quant(f)] + ext
-            core += divmod_instances(core + [g])
+            core += divmod_instances(core + [g]) + real_fn_instances(core + [g])
             s = z3.Solver()
             s.set(timeout=budget)
             s.add(*core)
